@@ -39,13 +39,16 @@ def zeros (n : Nat) : Bytes := List.replicate n 0
 def pubKeySize (H : Bytes → Bytes) (pin : SizeIn) (payload : Bytes) : Nat :=
   (Gen.Fee.pub_key_size H pin.hdKeys payload).toNat
 
+/-- the `m` of `_solution_sizes`' p2ms branch: the translated source expression on the first byte of the payload -/
+def p2msM (payload : Bytes) : Nat := (Gen.Fee.p2ms_threshold ((Btc.Script.Core.getB payload 0 : Nat) : Int)).toNat
+
 /-- `_solution_sizes` -/
 def solutionSizes (H : Bytes → Bytes) (ty : Ty) (payload : Bytes) (pin : SizeIn) : Option (List Nat) :=
   match ty with
   | .p2pkh => some [SIG, pubKeySize H pin payload]
   | .p2pk => some [SIG]
   | .p2wpkh => some [SIG, KEY]
-  | .p2ms => some (0 :: List.replicate ((Btc.Script.Core.getB payload 0) - Gen.Fee.OP_INT_OFFSET.toNat) SIG)
+  | .p2ms => some (0 :: List.replicate (p2msM payload) SIG)
   | _ => none
 
 /-- `_asked` -/
